@@ -29,6 +29,7 @@ pub fn opts_from_json(o: &Value) -> Opts {
             "hyphen" => Splitter::Hyphen,
             "every2" => Splitter::Every2,
             "every3" => Splitter::Every3,
+            "half" => Splitter::Half,
             _ => Splitter::None,
         },
         alg: if o["alg"] == "opt" { Alg::Opt(p) } else { Alg::FF },
@@ -56,12 +57,14 @@ pub fn run_input(ch: &mut Chunker, v: &Value) {
                 "hyphen" => Splitter::Hyphen,
                 "every2" => Splitter::Every2,
                 "every3" => Splitter::Every3,
+                "half" => Splitter::Half,
                 _ => Splitter::None,
             };
             let pre = match v["pre"].as_str().unwrap_or("none") {
                 "hyphen" => Splitter::Hyphen,
                 "every2" => Splitter::Every2,
                 "every3" => Splitter::Every3,
+                "half" => Splitter::Half,
                 _ => Splitter::None,
             };
             rec_split_pre(ch, &cps_to_string(&v["s"]), sp, pre)
@@ -190,8 +193,18 @@ fn gen_c10(ch: &mut Chunker, r: &mut Rng, thorough: bool, scale: usize) {
     }
     // (e) ESC inside sequences: every string over {ESC, ']', '\\', 'a'} (an OSC payload may contain ESCs; the sequence
     //     still ends at the first BEL or "ESC \\"), and runs of ESC before a terminator / a final byte
-    for s in all_strings(&['\u{1b}', ']', '\\', 'a'], if thorough { 7 } else { 6 }) {
+    for s in all_strings(&['\u{1b}', ']', '\\', 'a', '\u{e9}'], if thorough { 7 } else { 6 }) {
         rec_dw(ch, &s);
+    }
+    // an ESC inside an OSC payload that is *not* followed by a backslash at once: multi-byte characters in between
+    for mb in ["\u{e9}", "\u{4f60}", "\u{e9}\u{e9}", "\u{301}", "x", "\u{1f600}"] {
+        for pre in ["", "0;x", "\u{e9}"] {
+            for v in ["y", "\u{4f60}", ""] {
+                for term in ["\u{7}", "\u{1b}\\"] {
+                    rec_dw(ch, &format!("a\u{1b}]{}\u{1b}{}\\{}{}z", pre, mb, v, term));
+                }
+            }
+        }
     }
     for k in 0..6 {
         let run = "\u{1b}".repeat(k);
@@ -353,6 +366,36 @@ pub fn gen_wrap_family(ch: &mut Chunker, r: &mut Rng, prop: &str, _thorough: boo
             rec_wrap(ch, &text, &o, prop);
         }
     }
+    // (b2) the sentinel must also be available when the first word *fits* the narrow first line: under optimal-fit the
+    //      cheapest arrangement may leave the first line to the indent alone (short words, first line 1-2 columns wide)
+    if prop == "C03" || prop == "C01" || prop == "C08" {
+        let lens = [1usize, 2, 3, 4];
+        for (pi, (ii, si)) in [("     ", ""), ("      ", "  "), ("\u{4f60}\u{597d}\u{4f60}", "\u{e9}"), ("> > > ", "> ")].iter().enumerate() {
+            let iw = display_width_oracle(ii);
+            let sw = display_width_oracle(si);
+            for a in lens {
+                for b in lens {
+                    for c in lens {
+                        if prop != "C03" && (a + 2 * b + 3 * c + pi) % 6 != 0 {
+                            continue;
+                        }
+                        let text = format!("{} {} {}", "a".repeat(a), "b".repeat(b), "c".repeat(c));
+                        for room in [1usize, 2] {
+                            let mut o = Opts::new(iw + room);
+                            o.ii = ii.to_string();
+                            o.si = si.to_string();
+                            o.bw = true;
+                            o.sep = Sep::Ascii;
+                            o.splitter = Splitter::None;
+                            o.alg = if FULL { Alg::Opt(Pen::DEFAULT) } else { Alg::FF };
+                            let _ = sw;
+                            rec_wrap(ch, &text, &o, prop);
+                        }
+                    }
+                }
+            }
+        }
+    }
     // (c) zero-width characters inside otherwise plain words, at every width between the display width and the
     //     char / byte count (where a cached or shortcut width that counts bytes or chars goes wrong)
     for i in 0..40 * scale {
@@ -367,7 +410,7 @@ pub fn gen_wrap_family(ch: &mut Chunker, r: &mut Rng, prop: &str, _thorough: boo
             o.crlf = false;
             if text.contains('-') {
                 o.splitter = Splitter::Hyphen;
-            } else if matches!(o.splitter, Splitter::Every2 | Splitter::Every3) || i % 2 == 0 {
+            } else if matches!(o.splitter, Splitter::Every2 | Splitter::Every3 | Splitter::Half) || i % 2 == 0 {
                 o.splitter = Splitter::None;
             }
             if i % 3 != 0 {
@@ -397,10 +440,6 @@ pub fn gen_wrap_family(ch: &mut Chunker, r: &mut Rng, prop: &str, _thorough: boo
             }
             if !crlf {
                 o.crlf = false;
-            }
-            // custom splitters count characters, so keep them away from escape sequences
-            if text.contains('\u{1b}') && matches!(o.splitter, Splitter::Every2 | Splitter::Every3) {
-                o.splitter = Splitter::Hyphen;
             }
             if r.chance(1, 6) {
                 rec_fill(ch, &text, &o, prop);
@@ -435,9 +474,6 @@ fn gen_steps(ch: &mut Chunker, r: &mut Rng, scale: usize) {
             }
             if !crlf {
                 o.crlf = false;
-            }
-            if text.contains('\u{1b}') && matches!(o.splitter, Splitter::Every2 | Splitter::Every3) {
-                o.splitter = Splitter::Hyphen;
             }
             rec_wrap_steps(ch, &text, &o);
         }
